@@ -1,0 +1,7 @@
+//go:build !verif
+
+package verifhook
+
+// Point is a scheduling point for the external verification harness. Without the
+// `verif` build tag it does nothing.
+func Point(name string, args ...any) {}
